@@ -35,6 +35,68 @@ theorem load_perm {store : Store E} {tips tips' : List K} (hp : tips.Perm tips')
   · rintro ⟨t, ht, h1⟩; exact ⟨t, hp.mem_iff.mp ht, h1⟩
   · rintro ⟨t, ht, h1⟩; exact ⟨t, hp.mem_iff.mpr ht, h1⟩
 
+/-- Reachability from a tip list only depends on the *set* of tips, and a tip that is itself reachable
+from the others adds nothing. -/
+theorem reachable_append_redundant {store : Store E} {tips extra : List K}
+    (hex : ∀ x ∈ extra, Reachable store tips x) (k : K) :
+    Reachable store (tips ++ extra) k ↔ Reachable store tips k := by
+  constructor
+  · rintro ⟨t, ht, h1⟩
+    rcases List.mem_append.mp ht with ht | ht
+    · exact ⟨t, ht, h1⟩
+    · obtain ⟨t0, ht0, h0⟩ := hex t ht
+      refine ⟨t0, ht0, ?_⟩
+      rcases h1 with rfl | h1
+      · exact h0
+      · rcases h0 with rfl | h0
+        · exact .inr h1
+        · exact .inr (h0.append h1)
+  · rintro ⟨t, ht, h1⟩
+    exact ⟨t, List.mem_append.mpr (.inl ht), h1⟩
+
+/-- **Which namespaces point at the changes does not matter**: further references (another remote's
+`refs/cobs/<type>/<id>`) to changes that are already reachable — ancestors of the tips, or the tips
+again — leave the loaded graph unchanged. -/
+theorem load_redundant_tips {store : Store E} {tips extra : List K}
+    (hex : ∀ x ∈ extra, Reachable store tips x)
+    {f f' : Nat} {r r' : Option (Dag E)}
+    (h : load store f tips = some r) (h' : load store f' (tips ++ extra) = some r') : r = r' := by
+  apply load_closure _ h h'
+  intro k _
+  exact (reachable_append_redundant hex k).symm
+
+/-- **Multiplicity of references does not matter**: loading through a tip list and through the same list
+with duplicates removed gives the same graph. -/
+theorem load_dedup [DecidableEq K] {store : Store E} {tips : List K}
+    {f f' : Nat} {r r' : Option (Dag E)}
+    (h : load store f tips = some r) (h' : load store f' tips.eraseDups = some r') : r = r' := by
+  apply load_closure _ h h'
+  intro k _
+  constructor
+  · rintro ⟨t, ht, h1⟩; exact ⟨t, List.mem_eraseDups.mpr ht, h1⟩
+  · rintro ⟨t, ht, h1⟩; exact ⟨t, List.mem_eraseDups.mp ht, h1⟩
+
+/-- **References to unloadable objects that reach nothing do not matter**: a tip that is not a change
+(`store t = none`, e.g. a ref that points at a non-COB commit) contributes no change to the change set,
+so replicas that differ only in such references load the same graph. -/
+theorem load_unloadable_tip {store : Store E} {tips : List K} {t : K} (ht : store t = none)
+    {f f' : Nat} {r r' : Option (Dag E)}
+    (h : load store f tips = some r) (h' : load store f' (t :: tips) = some r') : r = r' := by
+  apply load_closure _ h h'
+  intro k hk
+  constructor
+  · rintro ⟨t0, ht0, h1⟩; exact ⟨t0, List.mem_cons_of_mem _ ht0, h1⟩
+  · rintro ⟨t0, ht0, h1⟩
+    rcases List.mem_cons.mp ht0 with rfl | ht0
+    · rcases h1 with rfl | h1
+      · simp [ht] at hk
+      · exfalso
+        have hnil : storeNext store t0 = [] := storeNext_of_none ht
+        cases h1 with
+        | step e => simp [hnil] at e
+        | trans e _ => simp [hnil] at e
+    · exact ⟨t0, ht0, h1⟩
+
 /-- What is loaded: exactly the reachable loadable changes, each with its parents as dependencies
 (unloadable parents stay as dangling dependencies), dependents the loaded children; `none` iff that
 graph has no root. -/
